@@ -13,7 +13,9 @@ import (
 	"encoding/json"
 	"fmt"
 	"os"
+	"strconv"
 	"sync"
+	"time"
 
 	"verifh/common"
 )
@@ -52,14 +54,75 @@ func main() {
 	r := common.Start("C04", "exploration")
 	installHooks()
 
+	if f := os.Getenv("C04_DEV_CALIB"); f != "" { // development aid: calibrate one stored program, keep the files
+		buf, _ := os.ReadFile(f)
+		var p Program
+		if err := json.Unmarshal(buf, &p); err != nil {
+			panic(err)
+		}
+		dir := common.Scratch("c04-dev")
+		fmt.Printf("%+v\nfiles in %s\n", calibrateOne(&p, dir, false, true), dir)
+		return
+	}
+	if n, _ := strconv.Atoi(os.Getenv("C04_DEV_PCAL")); n > 0 { // development aid: does pcal accept what validPlusCal accepts?
+		devPcalOnly = true
+		rng := r.Rand("dev-pcal")
+		var ps []*Program
+		for len(ps) < n {
+			p, _, _ := drawValidProgram(rng, map[string]int{})
+			ps = append(ps, p)
+		}
+		bad := 0
+		var mu sync.Mutex
+		common.Parallel(n, 8, func(i int) {
+			dir := common.Scratch("c04-dev")
+			defer os.RemoveAll(dir)
+			if out := calibrateOne(ps[i], dir, false, true); !out.Accepted {
+				mu.Lock()
+				bad++
+				fmt.Printf("REJECTED %s\n%s\n", out.Problem, ps[i].JSON())
+				mu.Unlock()
+			}
+		})
+		fmt.Printf("pcal accepted %d of %d programs\n", n-bad, n)
+		return
+	}
+	if os.Getenv("C04_DEV_QUIRK") != "" { // development aid: is the pcal tail-call peculiarity modelled exactly?
+		rng := r.Rand("dev-quirk")
+		found := 0
+		for found < 3 {
+			p, _, _ := drawValidProgram(rng, map[string]int{})
+			_, sp, _ := vet(p)
+			a, _ := NewInterp(sp, true).RunAll(maxRefSteps)
+			b, _ := NewInterp(sp, false).RunAll(maxRefSteps)
+			differ := false
+			for i := range a {
+				if fmt.Sprint(a[i].Next.Vars) != fmt.Sprint(b[i].Next.Vars) {
+					differ = true
+				}
+			}
+			if !differ {
+				continue
+			}
+			found++
+			dir := common.Scratch("c04-dev")
+			on := calibrateOne(p, dir, false, true)
+			off := calibrateOne(p, dir, false, false)
+			fmt.Printf("program with a tail call into another procedure: pcal-mode accepted=%v (%s); statement-mode accepted=%v (%s)\n", on.Accepted, on.Problem, off.Accepted, off.Problem)
+			os.RemoveAll(dir)
+		}
+		return
+	}
 	if r.Replay != "" {
 		replay(r)
 		return
 	}
 
-	rng := r.Rand("c04-programs")
 	nPrograms := r.Pick(300, 20000)
-	nCalib := r.Pick(3, 60)
+	nCalib := r.Pick(3, 40)
+	if os.Getenv("C04_NOCALIB") != "" { // development aid
+		nCalib = 0
+	}
 
 	var samples common.SampleKeeper
 	samples.N = 4
@@ -77,59 +140,81 @@ func main() {
 	calibWG.Add(1)
 	go func() { defer calibWG.Done(); calib.run() }()
 
-	freshSeen := map[string]int{}
-	for i := 0; i < nPrograms; i++ {
-		p, st, why := drawValidProgram(rng, rejected)
-		if p == nil {
-			r.Inconclusive("generator could not produce a valid program: " + why)
-			continue
+	shrunk := map[string]bool{}
+	var mu sync.Mutex // guards every counter below and `shrunk`
+	progStart := time.Now()
+	const batchSize = 50
+	nBatches := (nPrograms + batchSize - 1) / batchSize
+	common.Parallel(nBatches, r.Pick(4, 12), func(b int) {
+		rng := r.Rand(fmt.Sprintf("c04-programs-%d", b))
+		rej := map[string]int{}
+		offered := false
+		for k := 0; k < batchSize && b*batchSize+k < nPrograms; k++ {
+			i := b*batchSize + k
+			p, st, why := drawValidProgram(rng, rej)
+			if p == nil {
+				r.Inconclusive("generator could not produce a valid program: " + why)
+				continue
+			}
+			if b < nCalib && !offered && st.Steps >= 8 && st.MaxDepth >= 2 {
+				// deterministic sample for the TLC calibration: the first program of some size in each of the first batches
+				offered = true
+				calib.offer(i, p)
+			}
+			res := runProgram(p, func(v *violation) bool {
+				return handleViolation(r, p, v, st, &mu, shrunk)
+			})
+			mu.Lock()
+			evals++
+			tot["steps"] += res.Steps
+			tot["attempts"] += res.Attempts
+			tot["aborts"] += res.Aborts
+			tot["resyncs"] += res.Resyncs
+			for k, n := range res.AfterTerm {
+				abortsAfter[k] += n
+			}
+			if res.Finished {
+				tot["finished"]++
+			}
+			if res.Truncated != "" {
+				tot["truncated_after_known_finding"]++
+			}
+			if res.Viol != nil {
+				tot["ended_by_violation"]++
+			}
+			if st.MaxDepth > maxDepth {
+				maxDepth = st.MaxDepth
+			}
+			termsSeen["call"] += st.Calls
+			termsSeen["tail"] += st.TailCalls
+			termsSeen["ret"] += st.Returns
+			if st.Recursion {
+				tot["programs_with_recursion"]++
+			}
+			if st.MutualRec {
+				tot["programs_with_mutual_recursion"]++
+			}
+			if st.RefWrites > 0 {
+				tot["programs_with_ref_writes"]++
+			}
+			if st.TailCalls > 0 {
+				tot["programs_with_tail_calls"]++
+			}
+			mu.Unlock()
+			if st.MaxDepth >= 2 || st.Recursion || st.TailCalls > 0 {
+				distinct.Add(p.JSON())
+			}
+			if i < 4 {
+				samples.Add(map[string]any{"program": p, "reference_stats": st, "run": res})
+			}
 		}
-		if i < nCalib {
-			calib.offer(i, p)
+		mu.Lock()
+		for k, n := range rej {
+			rejected[k] += n
 		}
-		evals++
-		var first *violation
-		res := runProgram(p, func(v *violation) bool {
-			return handleViolation(r, p, v, st, freshSeen, &first)
-		})
-		tot["steps"] += res.Steps
-		tot["attempts"] += res.Attempts
-		tot["aborts"] += res.Aborts
-		tot["resyncs"] += res.Resyncs
-		for k, n := range res.AfterTerm {
-			abortsAfter[k] += n
-		}
-		if res.Finished {
-			tot["finished"]++
-		}
-		if res.Truncated != "" {
-			tot["truncated_after_known_finding"]++
-		}
-		if res.Viol != nil {
-			tot["ended_by_violation"]++
-		}
-		if st.MaxDepth > maxDepth {
-			maxDepth = st.MaxDepth
-		}
-		termsSeen["call"] += st.Calls
-		termsSeen["tail"] += st.TailCalls
-		termsSeen["ret"] += st.Returns
-		if st.Recursion {
-			tot["programs_with_recursion"]++
-		}
-		if st.MutualRec {
-			tot["programs_with_mutual_recursion"]++
-		}
-		if st.RefWrites > 0 {
-			tot["programs_with_ref_writes"]++
-		}
-		if st.MaxDepth >= 2 || st.Recursion || st.TailCalls > 0 {
-			distinct.Add(p.JSON())
-		}
-		if i < 4 {
-			samples.Add(map[string]any{"program": p, "reference_stats": st, "run": res})
-		}
-	}
+		mu.Unlock()
+	})
+	progWall := time.Since(progStart).Seconds()
 	calib.close()
 	calibWG.Wait()
 
@@ -139,6 +224,7 @@ func main() {
 
 	extra := map[string]any{
 		"totals":                      tot,
+		"programs_wall_s":             progWall,
 		"aborted_attempts_after_term": abortsAfter,
 		"reference_terminators":       termsSeen,
 		"max_call_depth":              maxDepth,
@@ -165,21 +251,30 @@ func main() {
 
 // handleViolation reports v (after shrinking the program when it is fresh) and says whether the monitor may
 // resynchronise (only for open known findings).
-func handleViolation(r *common.Run, p *Program, v *violation, st programStats, freshSeen map[string]int, first **violation) bool {
+var shrunkTries = map[string]int{}
+
+func handleViolation(r *common.Run, p *Program, v *violation, st programStats, mu *sync.Mutex, shrunk map[string]bool) bool {
 	if v.Kind == "harness" {
 		r.Inconclusive("harness: " + v.Detail + " in " + p.JSON())
 		return false
 	}
 	key := v.key()
 	w := caseWitness{Program: p, Violation: v, Stats: &st}
-	if freshSeen[key] == 0 {
+	mu.Lock()
+	try := shrunkTries[key] < 4 && !shrunk[key]
+	shrunkTries[key]++
+	mu.Unlock()
+	if try { // the first witness of every key is shrunk
 		if sp, sv := shrink(p, key); sp != nil {
 			w = caseWitness{Program: sp, Shrunk: true, Violation: sv}
+			mu.Lock()
+			shrunk[key] = true
+			mu.Unlock()
 		}
 	}
 	fresh := r.Report(key, describe(w.Violation), w)
-	if fresh {
-		freshSeen[key]++
+	if !fresh {
+		knownKeys.Store(key, true)
 	}
 	return !fresh
 }
@@ -191,8 +286,11 @@ func replay(r *common.Run) {
 		os.Exit(3)
 	}
 	var f struct {
-		Key     string      `json:"key"`
-		Witness caseWitness `json:"witness"`
+		Key     string `json:"key"`
+		Witness struct {
+			Program *Program `json:"program"`
+			Shipped string   `json:"shipped_shape"`
+		} `json:"witness"`
 	}
 	if err := json.Unmarshal(buf, &f); err != nil {
 		fmt.Println("cannot parse replay file:", err)
